@@ -1,4 +1,5 @@
 import PewProofs.Srr
+import PewProofs.SrrStack
 
 /-! # C09 — property theorems (statements only depend on `PewModel.Srr`) -/
 namespace Pew.Srr
@@ -525,5 +526,121 @@ theorem srrconfig_record_roundtrip (c : SrrConfig) (hs : c.scantime ≠ 0) (ho :
 
 example : SrrConfig.fromRec (SrrConfig.make 35 140 (1 / 4) (1 / 2) [(0, 2), (1, 3)]).toRec
     = .ok (SrrConfig.make 35 140 (1 / 4) (1 / 2) [(0, 2), (1, 3)]) := by decide +kernel
+
+/-! ## structured stacks: elements, and changes of the element set between two reconstructions -/
+
+/-- **The reconstruction acts cell by cell**: for every change `f` of the cell type (another structured dtype: fields
+dropped, reordered, renamed, one field picked, values converted), any configuration and any stack - accepted or not -
+reconstructing the changed stack is the change applied to every voxel of the reconstruction, the zero outside the
+footprints being `f` of the zero record.  Nothing of the result depends on the cell type, so an object that
+reconstructs a stack after its dtype changed owes exactly the voxels of the NEW cells. -/
+theorem krisskross_pixelwise {α β : Type} (f : α → β) (z : α) (c : SrrConfig) (m : Rat) (layers : List (Arr2 α)) :
+    krisskross (f z) c m (layers.map (Arr2.map f)) = (krisskross z c m layers).map (Arr3.map f) :=
+  krisskross_map_aux f z c m layers
+
+/-- **Every element is reconstructed by itself**: element `e` of the structured reconstruction (`get()[name]`,
+`get(name)`) of a stack with `n` fields is the reconstruction of the layers' element `e`. -/
+theorem reconstruction_per_element (n e : Nat) (c : SrrConfig) (m : Rat) (layers : List (Arr2 (List Int))) :
+    (krisskross (zeroPx n) c m layers).map (Arr3.map (fieldOf e))
+      = krisskross (0 : Int) c m (layers.map (Arr2.map (fieldOf e))) := by
+  have hz : fieldOf e (zeroPx n) = 0 := by
+    simp only [fieldOf, zeroPx, List.getD_eq_getElem?_getD, List.getElem?_replicate]
+    split <;> rfl
+  rw [← hz]
+  exact (krisskross_pixelwise (fieldOf e) (zeroPx n) c m layers).symm
+
+example : fieldOf 1 (zeroPx 3) = 0 ∧ Arr2.map (fieldOf 1) { rows := 1, cols := 1, get := fun _ _ => [4, 5, 6] }
+    = ({ rows := 1, cols := 1, get := fun _ _ => fieldOf 1 [4, 5, 6] } : Arr2 Int) ∧ fieldOf 1 [4, 5, 6] = 5 :=
+  ⟨by decide, rfl, by decide⟩
+
+/-- **Changing the element set and reconstructing again.**  For a stack `s`, any configuration `c`, `m`:
+* `rename`: the layers are the same, the fields carry the new names (same dtypes, same order);
+* `remove`: the remaining fields in their old order, and the reconstruction of the new stack is the old reconstruction
+  with the removed fields dropped from every voxel;
+* `add`: one more field at the end; the old elements of the new reconstruction are the old reconstruction's, the new
+  element is the reconstruction of the added data.
+(`Stack.apply = some s'` is the hypothesis that pewlib performs the change: names exist / do not exist yet, no duplicate,
+a field remains, the added data has the layers' shapes.) -/
+theorem element_edits_then_reconstruct (s s' : Stack) (c : SrrConfig) (m : Rat) :
+    (∀ mp, s.apply (.rename mp) = some s' →
+      s'.layers = s.layers ∧ s'.fields = s.fields.map (fun f => (renameName mp f.1, f.2))) ∧
+    (∀ names, s.apply (.remove names) = some s' →
+      s'.fields = (keepIdx s.fields names).filterMap (fun i => s.fields[i]?) ∧
+      s'.fields.length = (keepIdx s.fields names).length ∧
+      krisskross (zeroPx s'.fields.length) c m s'.layers
+        = (krisskross (zeroPx s.fields.length) c m s.layers).map (Arr3.map (pickIdx (keepIdx s.fields names)))) ∧
+    (∀ name dt data, s.apply (.add name dt data) = some s' →
+      s'.fields = s.fields ++ [(name, dt)] ∧
+      (∀ e, e < s.fields.length →
+        (krisskross (zeroPx (s.fields.length + 1)) c m s'.layers).map (Arr3.map (fieldOf e))
+          = (krisskross (zeroPx s.fields.length) c m s.layers).map (Arr3.map (fieldOf e))) ∧
+      (krisskross (zeroPx (s.fields.length + 1)) c m s'.layers).map (Arr3.map (fieldOf s.fields.length))
+        = krisskross (0 : Int) c m data) := by
+  refine ⟨?_, ?_, ?_⟩
+  · intro mp h
+    simp only [Stack.apply] at h
+    split at h
+    · cases h; exact ⟨rfl, rfl⟩
+    · cases h
+  · intro names h
+    simp only [Stack.apply] at h
+    split at h
+    · cases h
+      have hl := filterMap_getElem?_length s.fields _ (keepIdx_lt s.fields names)
+      refine ⟨rfl, hl, ?_⟩
+      simp only [hl]
+      rw [← pickIdx_zero]
+      exact krisskross_pixelwise _ _ c m s.layers
+    · cases h
+  · intro name dt data h
+    simp only [Stack.apply] at h
+    split at h
+    · cases h
+    · rename_i hcond
+      cases h
+      simp only [Bool.or_eq_true, not_or, bne_iff_ne, ne_eq, Decidable.not_not, Bool.not_eq_true',
+        Bool.not_eq_false] at hcond
+      obtain ⟨⟨hname, hlen⟩, hshape⟩ := hcond
+      have hold : ∀ e, e < s.fields.length →
+          (List.zipWith (fun (l : Arr2 (List Int)) (d : Arr2 Int) =>
+              ({ rows := l.rows, cols := l.cols,
+                 get := fun r c => appendField s.fields.length (l.get r c) (d.get r c) } : Arr2 (List Int)))
+            s.layers data).map (Arr2.map (fieldOf e)) = s.layers.map (Arr2.map (fieldOf e)) := by
+        intro e he
+        apply List.ext_getElem
+        · simp [hlen]
+        · intro i h1 h2
+          simp only [List.getElem_map, List.getElem_zipWith, Arr2.map, fieldOf_appendField_lt _ _ _ _ he]
+      have hnew : (List.zipWith (fun (l : Arr2 (List Int)) (d : Arr2 Int) =>
+              ({ rows := l.rows, cols := l.cols,
+                 get := fun r c => appendField s.fields.length (l.get r c) (d.get r c) } : Arr2 (List Int)))
+            s.layers data).map (Arr2.map (fieldOf s.fields.length)) = data := by
+        apply List.ext_getElem
+        · simp [hlen]
+        · intro i h1 h2
+          have hi : i < s.layers.length := by simpa [hlen] using h1
+          have hmem : (s.layers[i], data[i]) ∈ s.layers.zip data := by
+            rw [List.mem_iff_getElem]
+            exact ⟨i, by simp [hlen, hi], by simp⟩
+          have hsh := List.all_eq_true.mp hshape _ hmem
+          simp only [Bool.and_eq_true, beq_iff_eq] at hsh
+          simp only [List.getElem_map, List.getElem_zipWith, Arr2.map, fieldOf_appendField_eq, hsh.1, hsh.2]
+      refine ⟨rfl, fun e he => ?_, ?_⟩
+      · rw [reconstruction_per_element, reconstruction_per_element]
+        exact congrArg _ (hold e he)
+      · rw [reconstruction_per_element]
+        exact congrArg _ hnew
+
+example :
+    let l : Arr2 (List Int) := { rows := 1, cols := 1, get := fun _ _ => [1, 2] }
+    let d : Arr2 Int := { rows := 1, cols := 1, get := fun _ _ => 3 }
+    let s : Stack := { fields := [("A", "<f8"), ("B", "<f8")], layers := [l, l] }
+    (s.apply (.remove ["A"])).map (·.fields) = some [("B", "<f8")] ∧
+    (s.apply (.rename [("A", "B"), ("B", "A")])).map (·.fields) = some [("B", "<f8"), ("A", "<f8")] ∧
+    (s.apply (.add "C" "<f4" [d, d])).map (·.fields) = some [("A", "<f8"), ("B", "<f8"), ("C", "<f4")] ∧
+    ((s.apply (.add "C" "<f4" [d, d])).map (fun t => t.layers.map (fun a => a.get 0 0))) = some [[1, 2, 3], [1, 2, 3]] ∧
+    (s.apply (.rename [("A", "B")])).isNone = true ∧ (s.apply (.remove ["A", "B"])).isNone = true ∧
+    (s.apply (.add "A" "<f8" [d, d])).isNone = true := by
+  decide +kernel
 
 end Pew.Srr
